@@ -241,16 +241,12 @@ def validate_surface_step(before_P, P0, before_Pf, before_F, kind, targets, obs_
     per_face = [atoms if (tset is None or i in tset) else [] for i in range(len(before_F))]
     bfaces = [tuple(before_P[v] for v in f) for f in before_F]
     existing = set(frozenset((f[i], f[(i + 1) % len(f)])) for f in bfaces for i in range(len(f)))
-    # ---- documented element counts (independent of which alternative is taken)
+    # ---- documented element counts: faces (the same for every admissible alternative); vertices: below
     want_nf = sum(len(first_refinement(f, a, existing)) for f, a in zip(bfaces, per_face))
-    pts = set()
-    for f, a in zip(bfaces, per_face):
-        pts.update(p for g in first_refinement(f, a, existing) for p in g)
-    want_new = len(pts - set(before_P))
     if len(obs_F) != want_nf:
         raise StepFailure("counts", "face_count", {"got": len(obs_F), "want": want_nf})
-    if len(obs_Pf) != n0 + want_new:
-        raise StepFailure("counts", "vertex_count", {"got": len(obs_Pf), "want": n0 + want_new})
+    if len(obs_Pf) < n0:
+        raise StepFailure("counts", "vertex_count", {"got": len(obs_Pf), "want_at_least": n0})
     # ---- originals in place
     for i in range(n0):
         if tuple(obs_Pf[i]) != tuple(before_Pf[i]):
@@ -292,6 +288,11 @@ def validate_surface_step(before_P, P0, before_Pf, before_F, kind, targets, obs_
         used += r
     if sorted(used) != sorted(keys):
         raise StepFailure("refinement_pattern", "extra_or_missing_faces", {"matched": len(used), "observed": len(keys)})
+    # ---- documented vertex count = the centres used by the refinement that was matched (every new vertex is at a
+    #      distinct centre, see above; so the count is wrong exactly when a new vertex belongs to no face)
+    want_new = len(set(p for k in used for p in k) - set(before_P))
+    if len(obs_Pf) != n0 + want_new:
+        raise StepFailure("counts", "vertex_count", {"got": len(obs_Pf), "want": n0 + want_new})
     return after_P, {"faces": want_nf, "new_vertices": want_new}
 
 
